@@ -194,7 +194,9 @@ impl<'a, TId: ArenaId, TValue> Iterator for MappingIter<'a, TId, TValue> {
 
     fn next(&mut self) -> Option<Self::Item> {
         loop {
-            if self.offset >= self.mapping.len {
+            // Ids may be sparse, so all slots up to the highest id that was ever
+            // inserted have to be visited, not just as many slots as there are items.
+            if self.mapping.len == 0 || self.offset > self.mapping.max {
                 return None;
             }
 
